@@ -66,6 +66,7 @@ def run(repo, run, tier):
     success(repo, run)
     slots(repo, run)
     shape(repo, run)
+    acceptance(repo, run)
 
 
 # ------------------------------------------------------------------------------------------------
@@ -280,3 +281,52 @@ def shape(repo, run):
                 run.report("C15.3", OPT, node, "%s can return the root without reshaping it to the shape of the initial guess (it is kept as a (n, 1) column internally)" % q)
         if nret == 0:
             raise AnalysisError("%s: no tuple return found" % q)
+
+
+# ------------------------------------------------------------------------------------------------
+def _nnf_negated_orderings(tree, neg=False, out=None):
+    """collect comparison atoms that occur under an odd number of negations (NaN makes `not (a > b)` true while `a <= b` is false)"""
+    out = out if out is not None else []
+    k = tree[0]
+    if k == "atom":
+        if neg and any(" %s " % o in tree[1] for o in ("Lt", "LtE")):
+            out.append(tree[1])
+    elif k == "not":
+        _nnf_negated_orderings(tree[1][0], not neg, out)
+    elif k in ("and", "or"):
+        for t in tree[1]:
+            _nnf_negated_orderings(t, neg, out)
+    return out
+
+
+def acceptance(repo, run):
+    rid = run.rule("C15.4", "a trial point replaces the iterate only under a POSITIVELY established progress test (no negated ordering comparison on floating-point data "
+                            "in the acceptance condition: with a NaN gain `not (gain <= 0)` accepts a zero step, which the step-size success test then certifies)", floor=2)
+    for q, trial in (("hybrj", "__x"), ("newtontrustregion", "__x")):
+        fn = repo.get(OPT, q)
+        loops = [st for st in fn.body if isinstance(st, ast.For)]
+        if not loops:
+            raise AnalysisError("%s: iteration loop not found" % q)
+        lp = loops[-1]
+        acc = None
+        for st in ast.walk(lp):
+            if isinstance(st, ast.If) and any(isinstance(s2, ast.Assign) and src(s2.targets[0]) == "x" and src(s2.value) == trial for s2 in st.body):
+                acc = st
+        if acc is None:
+            raise AnalysisError("%s: acceptance of the trial point (`x = %s`) not found" % (q, trial))
+        bt = BoolTracker()
+        # boolean locals defined before the acceptance test in the same loop body
+        body = acc._parent.body if hasattr(acc._parent, "body") else lp.body
+        pre = []
+        for st in lp.body:
+            if st is acc:
+                break
+            pre.append(st)
+        bt.run(pre)
+        tree = bt.tree(acc.test)
+        bad = _nnf_negated_orderings(tree)
+        run.judged(rid, "%s accepts the trial point under `%s`" % (q, src(acc.test)), ok=not bad)
+        if bad:
+            run.report("C15.4", OPT, acc, "%s accepts the trial point under a NEGATED ordering test (%s): when the quantity is NaN (0/0 for a zero step) the point is accepted, "
+                                          "the step norm is 0 and the step-size criterion reports success at the unchanged initial guess" % (q, bad[0].split("@")[0]),
+                       text="%s acceptance under negated comparison `%s`" % (q, bad[0].split("@")[0]))
